@@ -429,7 +429,9 @@ where
             cmp::Ordering::Equal => {}
             other => return other,
         }
-        match self.target.name_cmp(&other.target) {
+        // The canonical form keeps the target name as is, so compare
+        // its octets rather than use the canonical name order.
+        match self.target.composed_cmp(&other.target) {
             cmp::Ordering::Equal => {}
             other => return other,
         }
